@@ -15,6 +15,7 @@ mod cmd_termid;
 mod cmd_cats;
 mod cmd_reject;
 mod cmd_order;
+mod cmd_sub;
 #[cfg(hpo_verif)]
 mod cmd_algo;
 mod enc;
@@ -49,6 +50,7 @@ fn main() {
         "replay-cats" => cmd_cats::run(&args),
         "replay-reject" => cmd_reject::run(&args),
         "replay-order" => cmd_order::run(&args),
+        "replay-sub" => cmd_sub::run(&args),
         #[cfg(hpo_verif)]
         "record-algo" => cmd_algo::run(&args),
         "debug-mismatch" => cmd_binary::debug_mismatch(&args),
@@ -74,6 +76,7 @@ fn main() {
                 "replay-cats" => cmd_cats::replay_one(&v),
                 "replay-reject" => cmd_reject::replay_one(&v),
                 "replay-order" => cmd_order::replay_one(&v),
+                "replay-sub" => cmd_sub::replay_one(&v),
                 other => {
                     eprintln!("unknown replay cmd {other}");
                     std::process::exit(2)
